@@ -16,5 +16,9 @@ def main():
         if not ok:
             print(out[-6000:])
             return 1
+        bad = V.gate()
+        if bad:
+            print("forbidden vernacular: %s" % bad)
+            return 1
     print("setup ok")
     return 0
